@@ -5,7 +5,7 @@ import _nio as N
 
 CONFIG = dict(
     id="C18", level="other", shims=N.SHIMS, inject=N.INJECT,
-    kani=[N.U[k] for k in ('read', 'write', 'readv', 'writev', 'recvmsg', 'sendmsg', 'accept', 'connect')],
+    kani=[N.U[k] for k in ('read', 'write', 'readv', 'writev', 'recvmsg', 'sendmsg', 'accept', 'connect', 'read_long', 'write_long')],
     functions=N.FUNCS, assumptions=N.ASSUME,
     bounds="per unit: " + N.BB + " (read/write) ; " + N.BV + " (vectored)",
     explanation="Bounded stand-in (contract-based, Kani): blocking-mode obligations on every return path of the real NIO wrappers against the scripted kernel and a one-word model of the descriptor's O_NONBLOCK flag, for every script within the stated bound and both caller modes.",
